@@ -9,6 +9,13 @@ pub struct Conc {
     /// free-monoid map  chunk sequence -> bytes  is injective
     pub atom_len: usize,
     pub seed: u64,
+    /// which byte alphabet the atoms are drawn from.  Messages and identifiers are opaque byte strings; the
+    /// hostile alphabets make distinct atoms collide under any text-like treatment of them:
+    /// 0 = arbitrary bytes; 1 = bytes that are never valid UTF-8 (lone continuation bytes), so a lossy text
+    /// conversion maps all atoms of one length to the same string; 2 = ASCII text in which atoms differ only
+    /// in letter case, kind of blank and kind of line end, so case folding / trimming / newline normalisation
+    /// collapses them (needs atom_len >= 4, otherwise alphabet 0 is used)
+    pub alphabet: u8,
 }
 
 const ATOM_NAMES: &[&str] = &[
@@ -27,6 +34,26 @@ impl Conc {
         let mut out = vec![0u8; self.atom_len.max(1)];
         h.finalize_xof().read(&mut out);
         if let Some(ix) = ATOM_NAMES.iter().position(|n| *n == name) {
+            match (self.alphabet, self.atom_len >= 4) {
+                (1, _) => {
+                    for b in out.iter_mut() {
+                        *b = 0x80 | (*b & 0x3f);
+                    }
+                    out[0] = 0x80 | (out[0] & 0x30) | (ix as u8);
+                    return out;
+                }
+                (2, true) => {
+                    for b in out.iter_mut() {
+                        *b = b'x';
+                    }
+                    out[0] = if ix & 1 == 0 { b'M' } else { b'm' };
+                    out[1] = if ix & 2 == 0 { b's' } else { b'S' };
+                    out[2] = if ix & 4 == 0 { b' ' } else { b'\t' };
+                    out[3] = if ix & 8 == 0 { b'\n' } else { b'\r' };
+                    return out;
+                }
+                _ => {}
+            }
             out[0] = (out[0] & 0xF0) | (ix as u8);
         } else {
             // names outside the table (trace drivers use "m<number>"): hash only, length >= 8 there
